@@ -87,3 +87,40 @@ Fixpoint explains (reqs started : list args) : bool :=
          | r :: rs' => if args_eqb r a then explains rs' rest else find rs'
          end) reqs
   end.
+
+(* ------------------------------------------------------------------------------------------------
+   Which part of the output the window shows (--preview-window '+SCROLL[-OFFSET]' and '~HEADER').
+   Man page: "+SCROLL[-OFFSET] determines the initial scroll offset of the preview window",
+   "/DENOM" subtracts that fraction of the window height (e.g. +{2}-/2 centres line {2}), and
+   "~HEADER_LINES keeps the top N lines as the fixed header".  The user's reading: after the command
+   for the focused line has run (and nobody scrolled), the first row below the header shows line
+   SCROLL - OFFSET - height/DENOM of the output (counting from 1), never a line above the first one
+   below the header and never a line beyond the last one; the rows below show the lines that follow.
+   Lines are numbered from 1; offsets count the lines above the first row (0 = top). *)
+
+(* sum: the signed components of the expression after substituting the focused line's fields;
+   denom: 0 when there is no /DENOM component; height: rows of the preview window; headers: ~N *)
+Definition requested_offset (sum denom height headers : Z) : Z :=
+  Z.max 0 (sum - 1 - (if denom =? 0 then 0 else Z.max 0 (height - headers) / denom)).
+
+Definition constrain (v lo hi : Z) : Z := if v <? lo then lo else if v >? hi then hi else v.
+
+(* the offset the window must end up with when the output has n lines *)
+Definition final_offset (req headers n : Z) : Z := constrain req headers (n - 1).
+
+(* header rows are shown only when they leave room: 0 < headers < min(n, height) *)
+Definition header_rows (headers height n : Z) : Z :=
+  if (0 <? headers) && (headers <? Z.min n height) then headers else 0.
+
+Fixpoint zseq (from : Z) (len : nat) : list Z :=
+  match len with O => [] | S k => from :: zseq (from + 1) k end.
+
+(* the line numbers visible in the window, top to bottom, for an output of n lines shown at offset off *)
+Definition visible_lines (n height headers off : Z) : list Z :=
+  let h := header_rows headers height n in
+  zseq 1 (Z.to_nat h) ++
+  zseq (off + 1) (Z.to_nat (Z.min (height - h) (n - off))).
+
+(* the window shows the output of the command at the requested place *)
+Definition shows_requested_part (sum denom height headers n : Z) (seen : list Z) : bool :=
+  zlist_eqb seen (visible_lines n height headers (final_offset (requested_offset sum denom height headers) headers n)).
